@@ -112,3 +112,45 @@ def run_core(ctx, mode):
         "regions the property leaves open (undefined fluent read, comparison exactly one tolerance apart, inconsistent "
         "simultaneous effects, division by zero) admit any outcome",
     ]
+
+
+def run_c20(ctx):
+    quick = ctx.quick
+    hashseeds = (0, 1, 2) if quick else tuple(range(16))
+    ctx.mc("MC_Grammar", {"Mode": '"pre"', "Depth": 1, "NVals": 2}, ["Classified", "ReadBack"], label="MC_Grammar:pre")
+    # (G) the TLC-enumerated family: grounding of every program under all 4 bindings of the 2-object universe
+    gen_file = ctx.work / "gen_cases.ndjson"
+    rng = random.Random(ctx.seed)
+    cases = []
+    for mode in ("pre", "eff"):
+        ctx.gen("Gen_Core", {"Mode": f'"{mode}"', "Depth": 2, "NVals": 2}, gen_file)
+        cs = [json.loads(x) for x in open(gen_file)]
+        cs = rng.sample(cs, min(len(cs), 150 if quick else 1500))
+        for c in cs:
+            c["id"] = len(cases) + 1
+            c["objs"] = [["a", "t2"], ["b", "t1"]]
+            c["states"] = [{"facts": [], "fl": [["f", ["a"], [0, 1]], ["f", ["b"], [0, 1]], ["g", [], [0, 1]]]}]
+            c["calls"] = [{"act": "act", "args": [x, y], "s": 0, "mode": "ground"} for x in ("a", "b") for y in ("a", "b")]
+            cases.append(c)
+    n_gen = len(cases)
+    for i in range(300 if quick else 6000):
+        cases.append(gen_core.gen_case(ctx.seed, 80000 + i, n_states=1, n_calls=3, ground_only=True))
+    tf = ctx.drive("core", cases, hashseeds=hashseeds, opts={"snaps": False})
+    ctx.validate(tf, {c["id"]: c for c in cases}, driver="core", opts={"snaps": False})
+    n = 0
+    for line in open(tf):
+        h = json.loads(line)
+        for e in h["ev"]:
+            if e["c"] == "Ground" and "exc" not in e["out"]:
+                n += 1
+                if e["out"]["pre_lits"] or len(e["out"]["groups"]) > 1:
+                    ctx.nontrivial.add((h.get("text", "")[-300:], tuple(e["args"])))
+                if len(ctx.samples) < 2:
+                    ctx.sample({"call": [e["act"], e["args"]], "observed": {k: v for k, v in e["out"].items() if k != "pre_nums"}})
+    ctx.extra["ground_events"] = n
+    ctx.rule = (f"G: {n_gen} programs of the TLC-enumerated family under all 4 bindings of the two-object universe; V: random "
+                "actions over 4 typed objects + a constant with random type-correct calls (repeated objects, constants in any "
+                "position, arguments of subtypes). For each call the iteration over grounded_preconditions, every effect "
+                "group's grounded_discrete_effects / grounded_numeric_effects (as PDDL text re-read) and typed_action_call are "
+                "recorded and TLC compares them with position-wise substitution (Syntax!GroundLit / GroundExpr / GroundGroup). "
+                "distinct_nontrivial = distinct (action, call) pairs with at least one grounded literal or conditional group")
